@@ -413,6 +413,16 @@ func (w *World) finishBeginSpec(e *Env, h int64, cp CurParams) *BeginSpec {
 	if h >= 3 && w.R.Chance(w.P.EvidencePct) {
 		if ev := w.pickEvidence(h, cp); ev != nil {
 			b.Evidence = append(b.Evidence, *ev)
+			if w.P.FatalEvPct > 0 && EvidenceClass(w.View(), cp, *ev, w.Now) != "valid" {
+				// evidence the application cannot handle (it stops the node) followed by punishable evidence in the
+				// same list: either the node stops or everything punishable is punished
+				save := w.P.FatalEvPct
+				w.P.FatalEvPct = 0
+				if ev2 := w.pickEvidence(h, cp); ev2 != nil && ev2.Addr != ev.Addr {
+					b.Evidence = append(b.Evidence, *ev2)
+				}
+				w.P.FatalEvPct = save
+			}
 			if w.R.Chance(15) {
 				if ev2 := w.pickEvidence(h, cp); ev2 != nil && ev2.Addr != ev.Addr {
 					b.Evidence = append(b.Evidence, *ev2)
